@@ -218,21 +218,30 @@ def run(ctx: Ctx, rs: RuleSet, tier: str):
   rs.check(ok, rule, f'{cc.qualname}:emission',
            'body.extend(deletes) -> update_callable -> body.extend(assigns) '
            'for each parent', ctx.loc(cc, cc.node))
-  # classification of operations into the two groups
+  # classification of operations into the two groups: which list receives an
+  # append on the paths taken for a change of each operation class
+  from fdlstatic import dispatch
   groups: Dict[str, str] = {}
+  change_subj = None
   for n in walk_function(cc.node):
-    if isinstance(n, ast.If):
-      names = c10.isinstance_names(n.test) & set(c10.op_classes(ctx))
-      if not names:
-        continue
-      recv = {c.func.value.id for st in n.body for c in ast.walk(st)
-              if isinstance(c, ast.Call) and isinstance(
-                  c.func, ast.Attribute) and c.func.attr == 'append' and
-              isinstance(c.func.value, ast.Name)}
-      grp = 'deletes' if D in recv else ('assigns' if A in recv else None)
-      for nm in names:
-        if grp:
-          groups[nm] = grp
+    if isinstance(n, ast.Call) and unparse(n.func) == 'isinstance' and len(
+        n.args) == 2 and set(dispatch.class_names(n.args[1])) & set(
+            c10.op_classes(ctx)):
+      change_subj = unparse(n.args[0])
+
+  def _appends_to(node_id, lst):
+    return any(isinstance(e, ast.Call) and isinstance(
+        e.func, ast.Attribute) and e.func.attr == 'append' and unparse(
+            e.func.value) == lst for e in cfg_lib.walk_node(g, node_id))
+
+  for grp, lst in (('deletes', D), ('assigns', A)):
+    if lst is None:
+      continue
+    hit = dispatch.only_for(g, change_subj, list(c10.op_classes(ctx)),
+                            lambda n_, lst=lst: _appends_to(n_, lst))
+    for k, nodes in hit.items():
+      if nodes:
+        groups[k] = grp
   want = {'DeleteValue': 'deletes', 'RemoveTag': 'deletes',
           'SetValue': 'assigns', 'ModifyValue': 'assigns', 'AddTag': 'assigns'}
   rs.check(groups == want, rule, f'{cc.qualname}:groups',
@@ -250,15 +259,50 @@ def run(ctx: Ctx, rs: RuleSet, tier: str):
   rs.declare(rule, 'change and child dispatch cover the operation / element '
              'families and end in raise', 3)
   ops = set(c10.op_classes(ctx))
-  covered = set()
+  covered = set(dispatch.tested_classes(cc.node, change_subj)) & ops
+  # a change of none of the known classes raises before the next iteration of
+  # the per-change loop (isinstance tests about something else than the
+  # change - e.g. the kind of its last path element - are taken as false)
+  def _ev(test, subj, kind):
+    if isinstance(test, ast.Call) and unparse(test.func) == 'isinstance' and (
+        len(test.args) == 2 and unparse(test.args[0]) != subj):
+      return False
+    if isinstance(test, ast.UnaryOp) and isinstance(test.op, ast.Not):
+      v = _ev(test.operand, subj, kind)
+      return None if v is None else not v
+    if isinstance(test, ast.BoolOp):
+      vals = [_ev(v, subj, kind) for v in test.values]
+      if isinstance(test.op, ast.And):
+        return False if any(v is False for v in vals) else (
+            True if all(v is True for v in vals) else None)
+      return True if any(v is True for v in vals) else (
+          False if all(v is False for v in vals) else None)
+    return dispatch.eval_test(test, subj, kind)
+
   chain_raises = False
-  for n in walk_function(cc.node):
-    if isinstance(n, ast.If):
-      covered |= c10.isinstance_names(n.test) & ops
-      if not (len(n.orelse) == 1 and isinstance(n.orelse[0], ast.If)):
-        if n.orelse and isinstance(n.orelse[-1], ast.Raise) and (
-            c10.isinstance_names(n.test) & ops):
-          chain_raises = True
+  inner = [n for n in g.nodes() if g.kind[n] == 'for' and unparse(
+      g.stmt[n].target) == (change_subj or '')]
+  if inner:
+    h = inner[0]
+    seen = set()
+    stack = [m for m, lab in g.succ[h] if lab == 'iter']
+    back = False
+    while stack:
+      n = stack.pop()
+      if n in seen:
+        continue
+      seen.add(n)
+      if n == h:
+        back = True
+        continue
+      v = _ev(g.stmt[n].test, change_subj, None) if g.kind[n] == 'if' else None
+      for m, lab in g.succ[n]:
+        if lab == 'exc' or (v is True and lab == 'false') or (
+            v is False and lab == 'true'):
+          continue
+        stack.append(m)
+    chain_raises = not back and any(isinstance(g.stmt[n], ast.Raise)
+                                    for n in seen)
   rs.check(covered == ops and chain_raises, rule, f'{cc.qualname}:operations',
            f'covers {sorted(covered)} of {sorted(ops)}; default raises',
            ctx.loc(cc, cc.node))
